@@ -289,6 +289,25 @@ def gen_tables():
         e.defn("SIGN_AUTH_STEP%d_ERRS" % i, "list (list N * Z)", coq_list(
             "(%s, %s)" % (coq_list(map(coq_N, l)), coq_Z(r)) for l, r in pairs))
         e.defn("SIGN_AUTH_STEP%d_DEFAULT" % i, "Z", coq_Z(default))
+    def simple_handler_result(fn_, clsname, ns_, what):
+        """`except <clsname>: [log]; return (False, R)` handlers: list of R"""
+        outl = []
+        for h in handlers_in_order(fn_):
+            if handler_class_names(h) == [clsname]:
+                body = [st for st in h.body if not _is_logging(st)]
+                need(len(body) == 1 and isinstance(body[0], ast.Return)
+                     and isinstance(body[0].value, ast.Tuple) and len(body[0].value.elts) == 2
+                     and ev(body[0].value.elts[0], ns_) is False, what + ": handler shape")
+                outl.append(int(ev(body[0].value.elts[1], ns_)))
+        return outl
+
+    def opt_Z(l, what):
+        need(len(l) <= 1, what + ": more than one handler")
+        return "(Some %s)" % coq_Z(l[0]) if l else "None"
+
+    e.defn("SIGN_AUTH_PAYLOAD_OVERFLOW_RESULT", "option Z",
+           opt_Z(simple_handler_result(fn, "OverflowError", ns, "sign_authorized OverflowError"),
+                 "sign_authorized OverflowError"))
     fn = func_ast(D, "sign_unauthorized")
     hs = [h for h in handlers_in_order(fn) if handler_class_names(h) == ["HSM2DongleErrorResult"]]
     need(len(hs) == 1, "sign_unauthorized: expected 1 ErrorResult handler")
@@ -313,6 +332,20 @@ def gen_tables():
         d = ev(dicts[0], ns2)
         e.defn(pref + "_CHUNK_ERRORS", "list (N * Z)", coq_list(
             "(%s, %s)" % (coq_N(int(k)), coq_Z(int(v))) for k, v in d.items()))
+
+    fn = func_ast(D, "advance_blockchain")
+    ns_adv = dict(ns)
+    ns_adv.update(err=D.ERR.ADVANCE, response=D.RESPONSE.ADVANCE)
+    e.defn("ADV_SORT_VALUEERROR_RESULT", "option Z",
+           opt_Z(simple_handler_result(fn, "ValueError", ns_adv, "advance_blockchain ValueError"),
+                 "advance_blockchain ValueError"))
+    fn = func_ast(D, "_do_block_operation")
+    ns_bo = dict(ns)
+    ns_bo.update(errors=D.ERR.ADVANCE, responses=D.RESPONSE.ADVANCE, ops=D.OP.ADVANCE,
+                 command=D.CMD.ADVANCE)
+    e.defn("ADV_BROCOUNT_OVERFLOW_RESULT", "option Z",
+           opt_Z(simple_handler_result(fn, "OverflowError", ns_bo, "_do_block_operation OverflowError"),
+                 "_do_block_operation OverflowError"))
 
     # ---- _do_block_operation / _send_block_header lists (ast), evaluated for both commands
     for pref, errs, resp, ops, cmd in (
@@ -347,8 +380,12 @@ def gen_tables():
         need(isinstance(call, ast.Call) and call.func.attr == "get"
              and call.func.value.id == "chunk_error_mapping", "chunk handler not a .get")
         e.defn("%s_CHUNK_DEFAULT" % pref, "Z", coq_Z(int(ev(call.args[1], ns2))))
-        hs_v = [h for h in handlers_in_order(fn) if handler_class_names(h) == ["ValueError"]]
+        hs_v = [h for h in handlers_in_order(fn) if "ValueError" in handler_class_names(h)]
         need(len(hs_v) == 1, "_send_block_header: expected one ValueError handler")
+        for nm_ in handler_class_names(hs_v[0]):
+            need(nm_ in ("ValueError", "OverflowError"), "_send_block_header: unexpected class " + nm_)
+        e.defn("%s_COMPUTE_META_CATCHES_OVERFLOW" % pref, "bool",
+               "true" if "OverflowError" in handler_class_names(hs_v[0]) else "false")
         rets = [n for n in ast.walk(hs_v[0]) if isinstance(n, ast.Return)]
         need(len(rets) == 1, "ValueError handler shape")
         e.defn("%s_COMPUTE_META_RESULT" % pref, "Z", coq_Z(int(ev(rets[0].value.elts[1], ns2))))
@@ -427,6 +464,72 @@ def gen_tables():
             "(%s, %s)" % (coq_str(k), coq_str(v.__name__)) for k, v in p._mappings.items()))
         e.defn("VALIDATE_" + pref, "list (str * str)", coq_list(
             "(%s, %s)" % (coq_str(k), coq_str(v.__name__)) for k, v in p._validation_mappings.items()))
+
+    # ---- behavioural probes of small decision points (None / false = the exception escapes)
+    def probe_gate(p_, cmdval):
+        try:
+            r = p_.handle_request({"command": cmdval, "version": p_.VERSION})
+            return int(r["errorcode"])
+        except TypeError:
+            return None
+    for pref, p_ in (("V5", pv5), ("V1", pv1)):
+        a, b = probe_gate(p_, []), probe_gate(p_, {})
+        need(a == b, "gate treats list and dict commands differently")
+        e.defn("GATE_UNHASHABLE_COMMAND_" + pref, "option Z", "None" if a is None else "(Some %s)" % coq_Z(a))
+
+    def probe_input(i):
+        return pv5._validate_message({"message": {"tx": "aa", "input": i,
+                                                   "sighashComputationMode": "legacy"}}, what="tx")
+    lo_rej = probe_input(-1) < 0
+    hi_rej = probe_input(2 ** 32) < 0
+    need(probe_input(0) == 0 and probe_input(2 ** 32 - 1) == 0, "valid input index rejected")
+    need(lo_rej == hi_rej, "input index range check is one-sided")
+    need(lo_rej == (probe_input(-2 ** 70) < 0) and hi_rej == (probe_input(2 ** 70) < 0),
+         "input index range check is not monotone")
+    e.defn("SIGN_INPUT_RANGE_CHECKED", "bool", "true" if lo_rej else "false")
+
+    import io as _io
+    import logging as _logging
+
+    class _P:
+        def format_error(self):
+            return {"errorcode": -901}
+
+        def unknown_error(self):
+            return {"errorcode": -906}
+
+        def handle_request(self, r):
+            return {"errorcode": 0}
+
+    def probe_parser(line):
+        w = _io.BytesIO()
+        try:
+            SRV._RequestHandler(_P(), _logging.getLogger("gen")).handle("x", _io.BytesIO(line + b"\n"), w)
+            return w.getvalue() == b'{"errorcode": -901}\n'
+        except SRV.RequestHandlerError:
+            return False
+    pa = probe_parser(b"1" * 5000)
+    pb = probe_parser(b"[" * 100000 + b"]" * 100000)
+    need(pa == pb, "server treats the two non-JSONDecodeError parser failures differently")
+    e.defn("SERVER_PARSER_RAISED_IS_FORMAT_ERROR", "bool", "true" if pa else "false")
+
+    import ledger.block_utils as BU
+
+    def probe_coinbase():
+        def s_(b):
+            return (b if len(b) == 1 and b[0] < 0x80 else bytes([0x80 + len(b)]) + b)
+        payload = b"".join(s_(b"a") for _ in range(18)) + b"\xc1\x01"
+        blk = bytes([0xC0 + len(payload)]) + payload
+        try:
+            BU.get_coinbase_txn(blk.hex())
+            return None
+        except ValueError:
+            return True
+        except AttributeError:
+            return False
+    pc = probe_coinbase()
+    need(pc is not None, "get_coinbase_txn accepts a list-valued coinbase field")
+    e.defn("COINBASE_LIST_IS_VALUEERROR", "bool", "true" if pc else "false")
 
     for nm, v in (("UI_VERSION", P.UI_VERSION), ("APP_VERSION", P.APP_VERSION)):
         e.defn(nm, "N * N * N", "(%d, %d, %d)" % (v.major, v.minor, v.patch))
